@@ -121,7 +121,7 @@ def check_pair(ha, hb, a, b, acc, extra=True, holder=None):
                 if holder is not None:
                     holder['b'] = b
 
-    forms = ['add', 'iadd', 'join', 'str_add', 'str_join']
+    forms = ['add', 'iadd', 'join', 'str_add', 'str_join', 'str_reuse']
     if extra:
         forms += ['str_add_str', 'join3']
     for form in forms:
@@ -148,6 +148,14 @@ def check_pair(ha, hb, a, b, acc, extra=True, holder=None):
                 r = AnsiStr.join(a, b)
             elif form == 'str_add_str':
                 r = AnsiStr(a) + (AnsiStr(b) if not isinstance(b, str) else b)
+            elif form == 'str_reuse':
+                # the same two immutable operand objects used a second time: whatever they remember from the first
+                # concatenation must not show in the second
+                xa = AnsiStr(a)
+                xb = AnsiStr(b) if not isinstance(b, str) else b
+                xa + xb
+                AnsiString.join(a, xb)
+                r = xa + xb
             elif form == 'join3':
                 c3 = AnsiString('q', AnsiSetting('35'))
                 r = AnsiString.join(a, b, c3)
@@ -304,7 +312,8 @@ def check_self(ha, acc):
                 r += a
             elif form == 'self_str_add':
                 x = AnsiStr(a)
-                r = x + x
+                x + x
+                r = x + x               # second use of the same object
             elif form == 'self_str_join':
                 x = AnsiStr(a)
                 r = AnsiStr.join(x, x)
